@@ -305,6 +305,40 @@ def _acl_text(case, rules):
     return "".join("%s ~\n    ~\n        ~\n" % h if h.split(" ")[-1] != "~" else h + "\n" for h in heads)
 
 
+def e2e_safe_clause(case, rules, out):
+    """the --acl-safe view of the same pipeline: two generators, the first one 'safe' (its acl_safe is its ACL), the second
+    one not (no safe ACL); the safe desired configuration must be the safe generators' output completed with the defaults
+    of THAT output (and filtered by the safe ACL), not of the whole output"""
+    from annet import implicit
+    from annet.annlib import patching
+    from annet.annlib.lib import merge_dicts
+    from annet.generators import compile_acl_text
+    from harness.props import c10
+    dev = Dev(case["model"], case["tags"])
+    vendor = dev.hw.vendor
+    half = max(1, len(case["tree2"]) // 2)
+    safe_part, other_part = case["tree2"][:half], case["tree2"][half:]
+    acl1 = _acl_text(dict(case, tree2=safe_part, tree=[]), rules)
+    acl2 = _acl_text(dict(case, tree2=other_part, tree=[], drop_acl=False), {})
+    g1 = c10.make_generator("G0", vendor, acl1, _ops(safe_part), acl_safe=acl1)
+    g2 = c10.make_generator("G1", vendor, acl2 or "zzz-none ~\n", _ops(other_part))
+    try:
+        res = c10.run_old_new(case["model"], [g1, g2], _text(case["tree"]) or None, add_implicit=True, tags=case["tags"],
+                              acl_safe=True, exclusive=False)
+        if res.err:
+            return
+        safe_rules = compile_acl_text("".join(l + "  %generator_names=G0\n" if False else l + "\n" for l in acl1.split("\n") if l.strip()), vendor)
+        s_tree = rbgen.to_odict(safe_part)
+        want = patching.apply_acl(merge_dicts(s_tree, implicit.config(s_tree, rules)), safe_rules)
+    except Exception:
+        return
+    got = rbgen.to_list(res.safe_new)
+    if got != rbgen.to_list(want):
+        out.append(dict(sig="safe-new-not-completion-of-safe-output",
+                        what="with --acl-safe the safe desired configuration is %r; the safe generator's output completed with its "
+                             "own defaults and filtered by the safe ACL is %r" % (got[:4], rbgen.to_list(want)[:4])))
+
+
 def e2e_clause(case, rules, out):
     """gen._old_new_per_device (add_implicit) + api._diff_and_patch on a stub device: a default that is neither in the
     device text nor in the generator output must not appear in the diff (hence in no command)"""
@@ -383,6 +417,7 @@ def oracle(case, r):
         patch_clause(case, rules, out)
     if case["kind"] == "e2e":
         e2e_clause(case, rules, out)
+        e2e_safe_clause(case, rules, out)
     seen, uniq = set(), []
     for v in out:
         if v["sig"] not in seen:
